@@ -131,6 +131,8 @@ type obs struct {
 var (
 	obsMap sync.Map // string -> *obs
 	nextID atomic.Int64
+
+	bridgeObs = &obs{} // collects handler runs of requests without X-Verif-Id
 )
 
 const (
@@ -145,8 +147,9 @@ func obsOf(r *http.Request) *obs {
 	if v, ok := obsMap.Load(id); ok {
 		return v.(*obs)
 	}
-	// a request that did not come from the harness (e.g. through the bridge)
-	return &obs{}
+	// a request that did not come from the harness' request builder: the
+	// database bridge builds its own requests
+	return bridgeObs
 }
 
 // recordRun notes that a handler body runs, with the token found through
